@@ -1577,7 +1577,9 @@ class CParser:
             case "PPPRAGMA" | "_PRAGMA":
                 return self._parse_pppragma_directive()
             case "_STATIC_ASSERT":
-                return self._parse_static_assert()
+                # A single node, like every other statement (the declaration
+                # production returns a one-element list).
+                return self._parse_static_assert()[0]
             case _:
                 return self._parse_expression_statement()
 
